@@ -58,6 +58,8 @@ def run(ctx):
         name = cfg_name(c)
         names.append(name)
         for s in suites.SUITES:
+            if s.get("only") and "C19" not in s["only"]:
+                continue
             drv_rows, failures = run_suite_cfg(ctx, s, c, tier)
             nprog += 1
             for (args, rc, err, cmd) in failures:
@@ -85,6 +87,8 @@ def run(ctx):
     # (a) every distinct answer is judged by the reference semantics
     disagreements = 0
     for s in suites.SUITES:
+        if s.get("only") and "C19" not in s["only"]:
+            continue
         lines, owners = [], []
         for k in keys:
             if k[0] != s["name"]:
